@@ -350,3 +350,30 @@ func HarnessC10ClampFloat() {
 		zz.Assert("clamp-min-lower-bound", o >= float64(bound))
 	}
 }
+
+// HarnessC10FloatString: the documented convert round trip float64 -> string
+// -> float64 preserves the value. Floats are outside the solver's reach, so
+// the inputs come from a concrete list chosen around the precision limits of
+// narrower formats (2^24+1, values needing 17 significant digits, the largest
+// and smallest magnitudes).
+//
+//gosym:harness panics
+//gosym:cover roundtrip
+func HarnessC10FloatString() {
+	in := []float64{0, 1.5, 0.1, -2.5, 16777217, 3.141592653589793, 1.0000000001, 9007199254740993, 1e300, -1e300, 5e-324, 123456789.125}[zz.Choose("in.float", 12)]
+	out, err := Resolve(v1.Transform{Type: v1.TransformTypeConvert, Convert: &v1.ConvertTransform{ToType: v1.TransformIOTypeString}}, in)
+	zz.Assert("float64-to-string-no-error", err == nil)
+	if err != nil {
+		return
+	}
+	_, isStr := out.(string)
+	zz.Assert("float64-to-string-is-a-string", isStr)
+	back, err := Resolve(v1.Transform{Type: v1.TransformTypeConvert, Convert: &v1.ConvertTransform{ToType: v1.TransformIOTypeFloat64}}, out)
+	zz.Assert("string-to-float64-no-error", err == nil)
+	if err != nil {
+		return
+	}
+	f, isFloat := back.(float64)
+	zz.Cover("roundtrip")
+	zz.Assert("float64-string-float64-roundtrip", isFloat && f == in)
+}
